@@ -85,6 +85,7 @@ class ClassInfo:
         self.const_ann: t.Dict[str, ast.AST] = {}
         self.fields: t.Dict[str, FieldInfo] = {}  # dataclass-style annotated fields
         self.is_dataclass = False
+        self.is_namedtuple = False
         self.dataclass_frozen = False
         self.decorators: t.List[str] = []
         self.mro: t.List[str] = []
@@ -250,6 +251,11 @@ class Program:
                     for kw in d.keywords:
                         if kw.arg == "frozen" and isinstance(kw.value, ast.Constant):
                             ci.dataclass_frozen = bool(kw.value.value)
+        if any((dotted(b) or "").split(".")[-1] == "NamedTuple" for b in node.bases):
+            # class X(typing.NamedTuple): annotated fields in order, positional/keyword construction, immutable
+            ci.is_dataclass = True
+            ci.is_namedtuple = True
+            ci.dataclass_frozen = True
         for st in node.body:
             if isinstance(st, (ast.FunctionDef, ast.AsyncFunctionDef)):
                 fi = FuncInfo(f"{ci.qual}.{st.name}", st, mi, ci)
